@@ -20,6 +20,25 @@ def err_kind(e):
     return n if n in ERR_KINDS else 'Other:' + n
 
 
+_LIVE, _COUNT = {}, [0]
+
+
+def long_lived(cls, *args, **kw):
+    """A chain context object that outlives one transaction: two cases out of three re-use ONE instance per driver process
+    and re-initialise it in place (new protocol parameters after an epoch boundary / governance action, new ledger state),
+    the third gets a fresh instance.  Whatever the library remembers per context object (memo tables keyed on the context,
+    attributes it hangs on it) survives from one case to the next and must not leak a stale answer."""
+    _COUNT[0] += 1
+    if cls not in _LIVE:
+        _LIVE[cls] = cls(*args, **kw)
+        return _LIVE[cls]
+    if _COUNT[0] % 3 == 0:
+        return cls(*args, **kw)
+    obj = _LIVE[cls]
+    obj.__init__(*args, **kw)
+    return obj
+
+
 def main(handler):
     payload = json.loads(sys.stdin.read())
     results = []
